@@ -1178,6 +1178,7 @@ void generate(const std::string &prop, Rng &wl, Rng &fl, Case &c)
   sk.allow_cv_spurious  = true;
   sk.allow_stall        = true;
   sk.allow_sysjump      = true;
+  sk.allow_spawn_fail   = true;  // only bites where an SDK worker creates threads (periodic reader)
   sk.faults_on          = fl.chance(0.7);
   // world
   int world;
@@ -1202,7 +1203,8 @@ void generate(const std::string &prop, Rng &wl, Rng &fl, Case &c)
   c.set("world", world);
   bool metrics = world == W_PERIODIC;
   bool simple  = world == W_SPAN_SIMPLE || world == W_LOG_SIMPLE;
-  int max_queue = (int)wl.range(1, 8);
+  bool big      = vsim::tier_scale() > 1 && wl.chance(0.5);
+  int max_queue = (int)wl.range(1, big ? 16 : 8);
   int max_batch = (int)wl.range(1, max_queue);
   static const int64_t delays[] = {1, 5, 100, 5000};
   int64_t delay_ms              = wl.pick(delays);
@@ -1306,7 +1308,7 @@ void generate(const std::string &prop, Rng &wl, Rng &fl, Case &c)
     {
       TaskProg t;
       t.role = R_PRODUCER;
-      int n  = (int)wl.range(1, metrics ? 4 : 12);
+      int n  = (int)wl.range(1, metrics ? (big ? 6 : 4) : (big ? 20 : 12));
       for (int k = 0; k < n; ++k)
       {
         if (wl.chance(0.15))
